@@ -137,5 +137,6 @@ def grad_call_bounds(tier):
 
 def grad_call_bounds2(tier):
     if tier == "quick":
-        return dict(HWCodes=models.code(models.sq(2, 6) | {(9, 3), (4, 9)}), LCodes=models.code(models.eqpairs([2, 4])), JMax=2)
-    return dict(HWCodes=models.code(models.sq(2, 10) | {(15, 3), (4, 15)}), LCodes=models.code(models.eqpairs([2, 4, 6])), JMax=3)
+        return dict(HWCodes=models.code(models.sq(2, 6) | {(9, 3), (4, 9)}), LCodes=models.code(models.eqpairs([2, 4]) | {(2, 4), (4, 2)}), JMax=2)
+    return dict(HWCodes=models.code(models.sq(2, 10) | {(15, 3), (4, 15)}),
+                LCodes=models.code(models.eqpairs([2, 4, 6]) | {(2, 4), (4, 2), (6, 4), (2, 6)}), JMax=3)
